@@ -150,11 +150,14 @@ def emission_program(repo, fi, writer: str, method: str = "write_line"):
         raise AnalysisError("%s: mixes literal emissions with lines taken from a variable" % fi.qualname)
     var = names[0].exprs[0].id
     loops = [n for n in q.walk_body(fi.node) if isinstance(n, (ast.For,)) and isinstance(n.target, ast.Name) and n.target.id == var]
-    if len(loops) != 1 or not isinstance(loops[0].iter, ast.Call):
+    if len(loops) != 1 or not isinstance(loops[0].iter, (ast.Call, ast.Name)):
         raise AnalysisError("%s: emitted variable %s is not the target of a loop over a helper call" % (fi.qualname, var))
     lp = loops[0]
     if any(isinstance(x, (ast.If, ast.Continue, ast.Break)) for x in ast.walk(lp)) or not any(names[0].call is x for x in ast.walk(lp)):
         raise AnalysisError("%s: the emitting loop is conditional" % fi.qualname)
+    if isinstance(lp.iter, ast.Name):
+        # the lines are collected in a local list of the generator itself and written out by a final loop
+        return fi, _list_events(fi, lp.iter.id), {}
     call = lp.iter
     h = None
     m = fi.module
@@ -172,6 +175,13 @@ def emission_program(repo, fi, writer: str, method: str = "write_line"):
     if len(lst) != 1 or None in lst or not rets:
         raise AnalysisError("%s: does not return one list variable" % h.qualname)
     L = lst.pop()
+    return h, _list_events(h, L), binding
+
+
+
+def _list_events(h, L: str):
+    """Emissions denoted by the elements put into list ``L`` of function ``h``: its list display, then append /
+    extend / += of displays, in source order."""
     out = []
     n_def = 0
     for st in q.walk_body(h.node):
@@ -193,4 +203,4 @@ def emission_program(repo, fi, writer: str, method: str = "write_line"):
                 raise AnalysisError("%s: operation %s on the line list is not understood" % (h.qualname, st.func.attr))
     if n_def != 1:
         raise AnalysisError("%s: the line list %s is bound %d times" % (h.qualname, L, n_def))
-    return h, out, binding
+    return out
